@@ -97,6 +97,11 @@ impl Track {
 	}
 
 	pub fn should_be_removed(&self) -> bool {
+		// a sub-track that was added but not picked up yet is part of this
+		// track, and its handle may well be alive
+		if self.sub_tracks.has_pending() {
+			return false;
+		}
 		if self
 			.sub_tracks
 			.iter()
@@ -105,7 +110,10 @@ impl Track {
 			return false;
 		}
 		if self.persist_until_sounds_finish {
-			self.shared().is_marked_for_removal() && self.sounds.is_empty()
+			// sounds that were played but not picked up yet have not finished
+			self.shared().is_marked_for_removal()
+				&& self.sounds.is_empty()
+				&& !self.sounds.has_pending()
 		} else {
 			self.shared().is_marked_for_removal()
 		}
